@@ -21,9 +21,12 @@ MCConfigsB == {Cfg(1, FALSE, FALSE, rna, "simple", 16, 8, <<S1>>, Dom, -1, FALSE
 MCConfigsL == {Cfg(2, TRUE, FALSE, TRUE, "none", 16, 8, <<S1>>, Dom, -1, FALSE)}
 MCConfigsL2 == {Cfg(2, rsf, tcp, TRUE, "none", 16, 8, <<S1>>, Dom, -1, FALSE) : rsf \in BOOLEAN, tcp \in BOOLEAN}
 
-MCRequests == {[qname |-> <<"www">>, search |-> "true", life |-> 0],
-               [qname |-> <<"www", "s1", "">>, search |-> "none", life |-> 0]}
-MCRequests1 == {[qname |-> <<"www">>, search |-> "true", life |-> 0]}
+Req(q, sf, lf, qt, qc) == [qname |-> q, search |-> sf, life |-> lf, qtype |-> qt, qclass |-> qc]
+MCRequests == {Req(<<"www">>, "true", 0, "A", "IN"), Req(<<"www", "s1", "">>, "none", 0, "A", "IN")}
+MCRequests1 == {Req(<<"www">>, "true", 0, "A", "IN")}
+(* cache scenarios: same and different names x classes {IN, CH} x types {A, TXT} *)
+MCRequestsC == {Req(q, "none", 0, qt, qc) : q \in {<<"www", "s1", "">>, <<"ftp", "s1", "">>}, qt \in {"A", "TXT"}, qc \in {"IN", "CH"}}
+               \cup {Req(<<"www">>, "true", 0, "A", "IN")}
 MCBackoff == <<2, 3, 6, 13, 26, 32>>     \* 0.1 s doubling, capped at 2 s, in 1/16 s ticks (rounded)
 
 MCOutcomesA(q, qt) == OutSmall(q, qt) \cup {Exc("OSError"), Msg("REFUSED", <<>>, <<>>), Msg("NOERROR", <<>>, <<>>),
